@@ -377,21 +377,27 @@ def oracle(cases, results, cfg):
             hits.append(dict(what="[%s] %s (case %s)" % (cfg, r["err"], case_line(c)), key="%s:missing-op" % cfg,
                              replay=dict(harness="h_c19", config=cfg, case=case_line(c))))
             continue
-        before = str(c["init"])
+        before_y = before_s = str(c["init"])
+        per_case = 0
         for i, row in enumerate(r["ops"]):
             steps += 1
             got, want = row[0:3], row[3:6]
             if c["type"] == "flag":
                 got, want = [row[0], row[1], "0"], [row[3], row[4], "0"]
-            if got != want:
+            # a step is a witness on its own when both objects held the same value before it
+            if got != want and before_y == before_s and per_case < 64:
+                per_case += 1
+                before = before_s
                 op = c["ops"][i][0]
                 grp = "float-cas" if c["group"] == "float-special" else op
-                hits.append(dict(what=describe(c, i, cfg, before, got, want),
+                vals = [int(before), int(c["ops"][i][4])] if c["type"] not in FLT_TYPES else [1 << 70]
+                hits.append(dict(score=(c["type"] != "i32", any(x < 0 for x in vals), any(x == 0 for x in vals) and op not in INCDEC,
+                                        sum(abs(x) for x in vals)),
+                                 what=describe(c, i, cfg, before, got, want),
                                  key="%s:%s:%s" % (cfg, "ptr" if c["type"] in PTR_TYPES else "flt" if c["type"] in FLT_TYPES else "val", grp),
                                  replay=dict(harness="h_c19", config=cfg, case=case_line(minimal_case(c, i, before)),
                                              from_case=case_line(c) if len(c["ops"]) <= 8 else "(case %d of group %s, step %d)" % (c["id"], c["group"], i))))
-                break
-            before = row[4]    # continue from std's stored value (equal to yaclib's here)
+            before_y, before_s = got[1], want[1]
     return hits, steps, notes
 
 
@@ -565,12 +571,31 @@ def main(ck):
     exeA, bA = vlib.compile_harness("FA", [HARNESS], "c19")
     lap("build")
     res, crashes = {}, {}
-    with concurrent.futures.ThreadPoolExecutor(max_workers=2) as ex:
+    with concurrent.futures.ThreadPoolExecutor(max_workers=4) as ex:
         fF = ex.submit(run_cases, exeF, main_cases, "F")
         fT = ex.submit(run_cases, exeT, main_cases, "T")
+        sF = ex.submit(runner.run_harness, exeF, ["--sweep8"], 900)
+        sT = ex.submit(runner.run_harness, exeT, ["--sweep8"], 900)
         res["F"], crashes["F"] = fF.result()
         res["T"], crashes["T"] = fT.result()
+        sweeps = {"F": sF.result(), "T": sT.result()}
     total_steps = 0
+    # ---- exhaustive sweep of the 8-bit types (oracle only): every operation x stored value x argument
+    sweep_checked, sweep_rows = 0, 0
+    for cfg in ("F", "T"):
+        rows, out, err, rc = sweeps[cfg]
+        srows = [r for r in rows if "sweep" in r]
+        sweep_rows += len(srows)
+        for r in srows:
+            sweep_checked += r["checked"]
+            if r["mismatches"]:
+                ck.hits.append(dict(score=(True, False, False, 0),
+                                    what="[%s] exhaustive 8-bit sweep: yaclib_std::atomic<%s> %s%s differs from std::atomic on %d of %d (stored, argument) combinations; first: %s" % (
+                                        cfg, r["sweep"], CPP_NAME.get(r["op"], r["op"]), " volatile" if r["vol"] else "", r["mismatches"], r["checked"], r["first"]),
+                                    key="%s:val:%s" % (cfg, r["op"]),
+                                    replay=dict(harness="h_c19", config=cfg, case=r["first"])))
+        if rc != 0 or len(srows) != 80:
+            ck.broken.append(dict(name="exhaustive 8-bit sweep (%s) did not complete" % cfg, detail=(err or out)[-1500:]))
     notes = []
     for cfg in ("F", "T"):
         hits, steps, nts = oracle(main_cases, res[cfg], cfg)
@@ -589,6 +614,8 @@ def main(ck):
                 sig, (", libstdc++ assertion '%s'" % m.group(1)) if m else "", case_line(cc))
             key = "%s:abort:%s" % (cfg, op[0] if op else "?")
             ck.hits.append(dict(what=what, key=key, replay=dict(harness="h_c19", config=cfg, case=case_line(cc), extra=tail[-600:])))
+    # report the most readable witness first (int, small non-negative operands)
+    ck.hits.sort(key=lambda h: h.get("score", (True, True, True, 1 << 80)))
     for n in sorted(set(notes)):
         ck.notes.append(n)
     lap("run F,T + oracle")
@@ -625,21 +652,26 @@ def main(ck):
             terms, metas = [], []
             for c in coq_cases:
                 if c["id"] in res["F"] and not res["F"][c["id"]].get("err"):
-                    terms.append(coq_chk_term(c, "BFiber", res["F"][c["id"]], 0, force_nonvol_cas=True))
-                    metas.append((c, "F", 0, "generated FIBER model (wrapper over fiber::Atomic)"))
-                    terms.append(coq_chk_term(c, "BStd", res["F"][c["id"]], 3))
-                    metas.append((c, "F", 3, "AtomicStd.v contract vs libstdc++ std::atomic"))
+                    # one term: generated FIBER model vs yaclib_std columns, std contract vs std::atomic columns
+                    t1 = coq_chk_term(c, "BFiber", res["F"][c["id"]], 0, force_nonvol_cas=True)
+                    t2 = coq_chk_term(c, "BStd", res["F"][c["id"]], 3)
+                    obs2 = t2[t2.rindex(" [") + 1:]
+                    body = t1[len("chk_nat BFiber "):]
+                    k_T, rest = body.split(" false [", 1)
+                    terms.append("chk_nat2 BFiber BStd %s [%s %s" % (k_T, rest, obs2))
+                    metas.append((c, "F", (0, 3), ("generated FIBER model (wrapper over fiber::Atomic)",
+                                                   "AtomicStd.v contract vs libstdc++ std::atomic")))
                 if c["id"] in res["T"] and not res["T"][c["id"]].get("err"):
                     terms.append(coq_chk_term(c, "BThread", res["T"][c["id"]], 0))
                     metas.append((c, "T", 0, "generated THREAD model (wrapper over std::atomic)"))
             for c in ub:
                 terms.append(coq_term(c, "BFiber", strict=True))
                 metas.append((c, "FA", None, "strict C++ semantics of the generated FIBER model vs UBSan"))
-            out, logs = vlib.coq_eval_cases(HEADER, terms, "c19", shard=60) if terms else ([], [])
+            out, logs = vlib.coq_eval_cases(HEADER, terms, "c19", shard=max(60, len(terms) // (2 * vlib.NPROC) + 1)) if terms else ([], [])
             bad = []
             for (c, cfg, side, what), nums in zip(metas, out):
                 if nums is None:
-                    bad.append((c, cfg, what, "model evaluation failed: " + (logs[0][-600:] if logs else "")))
+                    bad.append((c, cfg, what if isinstance(what, str) else what[0], "model evaluation failed: " + (logs[0][-600:] if logs else "")))
                     continue
                 if side is None:
                     pred = decode(nums)
@@ -650,6 +682,18 @@ def main(ck):
                         bad.append((c, cfg, what, "model says %s, UBSan says %s" % ("undefined" if model_ub else "defined", "undefined" if impl_ub else "defined")))
                     else:
                         validated += 1
+                    continue
+                if isinstance(side, tuple):
+                    n1 = nums[0]
+                    parts = (nums[1:1 + n1], nums[1 + n1:])
+                    good = True
+                    for sd, wh, part in zip(side, what, parts):
+                        why = explain_chk(c, part, res[cfg][c["id"]], sd)
+                        if why:
+                            bad.append((c, cfg, wh, why))
+                            good = False
+                        else:
+                            validated += 1
                     continue
                 why = explain_chk(c, nums, res[cfg][c["id"]], side)
                 if why:
@@ -676,7 +720,12 @@ def main(ck):
                 if op[0] not in ("load", "conv", "fence_t", "fence_s"):
                     distinct.add((cfg, c["type"], op[0], op[1], op[2], before, str(op[4]), str(op[5])))
                 before = row[4]
-    ck.cov["evaluations"] = total_steps
+    ck.cov["evaluations"] = total_steps + sweep_checked
+    ck.cov["exhaustive_8bit"] = dict(operations_compared=sweep_checked, groups=sweep_rows,
+                                     what="int8_t and uint8_t: every operation and cv-overload x all 256 stored values x all 256 arguments "
+                                          "(compare_exchange: x 2 desired values x injected failure yes/no), both backends, against std::atomic")
+    ck.cov["programs"] = len(main_cases) * 2 + len(ub)
+    ck.cov["disagreements_checked"] = len(ck.hits) + len([b for b in ck.broken if b["name"].startswith("correspondence")])
     ck.cov["distinct_nontrivial"] = len(distinct)
     ck.cov["rule"] = ("operations executed on the real yaclib_std::atomic / atomic_flag next to std::atomic (configs F and T, plus one "
                       "UBSan process per overflow case in FA); non-trivial = distinct (backend, T, operation, cv-overload, injected "
